@@ -128,7 +128,7 @@ def main():
         import octave_mcp.mcp.write  # noqa: F401
 
         sys.setswitchinterval(1e-6)
-        first = [i for i, c in enumerate(calls) if not (c.get("args", {}).get("target_path"))][:8]
+        first = [i for i, c in enumerate(calls) if not (c.get("args", {}).get("target_path") or c.get("args", {}).get("file_path"))][:8]
         rnd = random.Random(sseed)
         rnd.shuffle(first)
         got = {}
@@ -152,7 +152,7 @@ def main():
         # calls on one target path form a history (create, preview, edit): they stay in order, in one thread
         jobs: dict = {}
         for i, c in enumerate(calls):
-            tp = c.get("args", {}).get("target_path") if "tool" in c else None
+            tp = (c.get("args", {}).get("target_path") or c.get("args", {}).get("file_path")) if "tool" in c else None
             jobs.setdefault(("path", tp) if tp else ("call", i), []).append(i)
         order = list(jobs.values())
         random.Random(sseed).shuffle(order)
